@@ -38,8 +38,9 @@ func (w *fileWriter) file(file *model.File) error {
 	}
 
 	for _, imp := range file.Imports {
+		// Types are referenced by the import name, which can be an alias
 		pkg := importPackage(imp)
-		w.linef(`"%v"`, pkg)
+		w.linef(`%v "%v"`, imp.Name, pkg)
 	}
 	w.line(")")
 	w.line()
